@@ -405,6 +405,13 @@ pub fn run(ctx: &mut Ctx) {
 }
 
 pub fn replay(_ctx: &mut Ctx, ext: &str, bytes: &[u8]) -> Result<Option<String>, Fail> {
+    if ext == "htape" {
+        // a generator tape of the history family
+        let steps = gen_history(&mut Tape::new(bytes));
+        return check_history(&steps).map(|_| None).map_err(|m| {
+            Fail::json(m, &json!({"history": steps.iter().map(|s| json!({"params": s.p.to_json(), "take": s.take})).collect::<Vec<_>>()}))
+        });
+    }
     if ext == "tape" {
         let p = gen_params(&mut Tape::new(bytes));
         return check_single(&p).map(|_| None).map_err(|m| Fail::json(m, &p.to_json()));
